@@ -6,7 +6,7 @@ root = sys.argv[1]
 only = sys.argv[2:]
 PIDS = ['C%02d' % i for i in range(1, 21)]
 muts = []
-for d in sorted(glob.glob(os.path.join(root, 'C*', 'm*'))):
+for d in sorted(glob.glob(os.path.join(root, '*', '*'))):
     if os.path.exists(os.path.join(d, 'patch.diff')):
         name = '/'.join(d.split('/')[-2:])
         if not only or any(name.startswith(o) for o in only):
@@ -54,4 +54,5 @@ for name in sorted(res):
         rc = res[name][pid][0]
         row += ' %s ' % {0: '.', 1: 'X', 2: 'B'}.get(rc, '?')
     own = name.split('/')[0]
-    print('%-8s%s   own:%s' % (name, row, {0: 'MISSED', 1: 'caught', 2: 'BROKEN'}.get(res[name][own][0])))
+    tail = ('own:%s' % {0: 'MISSED', 1: 'caught', 2: 'BROKEN'}.get(res[name][own][0])) if own in res[name] else ('alarms:%d' % sum(1 for q in PIDS if res[name][q][0] != 0))
+    print('%-8s%s   %s' % (name, row, tail))
